@@ -333,10 +333,14 @@ func TestVerifC18(t *testing.T) {
 			}
 		}
 		nrace := len(sigs)
-		// panics recovered inside operations
+		// panics recovered inside operations (one report per distinct message)
 		for _, p := range obs.Panics {
 			first := strings.SplitN(p, "\n", 2)[0]
-			vC18Direct("panic:"+sc.Name+":"+regexp.MustCompile(`\[\S+\]|0x[0-9a-f]+|\d+`).ReplaceAllString(first, "N"), p, sc)
+			sig := "panic:" + sc.Name + ":" + regexp.MustCompile(`\[\S+\]|0x[0-9a-f]+|\d+`).ReplaceAllString(first, "N")
+			if !sigs[sig] {
+				sigs[sig] = true
+				vC18Direct(sig, p, sc)
+			}
 		}
 		crashed := 0
 		if obs.Deadlock != "" {
